@@ -32,7 +32,7 @@ gin = ginenv.import_gin()
 ID = 'C20'
 LEVEL = 'exploration'
 ISOLATE = True
-BUDGET = {'quick': (16, 80), 'thorough': (16, 2000)}
+BUDGET = {'quick': (16, 64), 'thorough': (16, 2000)}
 RULE = ('Hypothesis op lists: history of 1-14 ops (parse_config of 1-4 generated statements '
         '[bindings with literal / @ref / @ref() / %macro-or-constant / @key/gin.singleton() values '
         'under scopes, macro definitions, stdlib imports in 6 forms, singleton constructors] with an '
